@@ -21,7 +21,7 @@ EXPLANATION = (
     "reference counting under all copy/destroy interleavings.")
 ASSUMPTIONS = ["std::shared_ptr reference counting is correct", "the mutex object itself is used from one thread at a time when requesting access (documented)"]
 THOROUGH_CONFIGS = [["-UNDEBUG", "-DPIKA_DEBUG"]]
-FLOORS = {"C04.R1": 4, "C04.R2": 3, "C04.R3": 2, "C04.R4": 1, "C04.R5": 6, "C04.R6": 8, "C04.R7": 2, "C04.R8": 1}
+FLOORS = {"C04.R1": 4, "C04.R2": 3, "C04.R3": 2, "C04.R4": 1, "C04.R5": 6, "C04.R6": 8, "C04.R7": 2, "C04.R8": 1, "C04.R9": 3}
 
 RW = "pika::execution::experimental::async_rw_mutex_access_type::readwrite"
 RD = "pika::execution::experimental::async_rw_mutex_access_type::read"
@@ -36,6 +36,10 @@ def run(rep, tier):
     rep.rule("C04.R5", "K6: start(): continuation() only if !add_op_state(this); continuation moves the state into the wrapper, completes once; sender dtor starts detached")
     rep.rule("C04.R8", "K9/K6 (ownership): every access group's shared state co-owns the wrapped value - the handle it stores is a shared-ownership smart pointer, assigned by that "
              "type's assignment operator, not a plain pointer/reference into the mutex (the value must outlive the last access wrapper even if the mutex is destroyed first)")
+    rep.rule("C04.R9", "K8 (special members agree with the destructor): ~sender gives an access that was requested but never started its turn (start_detached(std::move(*this))), "
+             "otherwise everything queued behind it waits for ever and the predecessor's shared state calls done() on a successor nobody owns. An assignment over such a sender "
+             "ends the old access in the same way: every user-provided operator= stores into 'state' only after start_detached or with 'state' known empty - a defaulted "
+             "operator= just drops the shared_ptr (the dropped state is destroyed inside its predecessor's destructor, which then writes into freed memory)")
     rep.rule("C04.R6", "K9: write wrappers/senders move-only, read ones copyable, mutex not copyable")
     rep.rule("C04.R7", "K5: op_state_head only via compare_exchange_weak/exchange with >= acq_rel")
 
@@ -262,6 +266,41 @@ def run(rep, tier):
         else:
             rep.bad("C04.R5", fn, fn.loc, "sender-dtor", "a sender that is destroyed without being started must still take and release its turn (start_detached)")
     # ---- R6 / R7
+    # ---- R9: assignment over an unstarted sender
+    asg = {}
+    for f in D.find(r"^pika::execution::experimental::async_rw_mutex::sender::operator=$"):
+        if f.parent == -1 and (not f.pattern or f.loc not in asg):
+            if not f.pattern or f.loc not in asg:
+                asg[f.loc] = f if (f.loc not in asg or asg[f.loc].pattern) else asg[f.loc]
+    dts = set(f.loc.rsplit(":", 1)[0] for f in D.find(r"^pika::execution::experimental::async_rw_mutex::sender::~sender$"))
+    if not dts:
+        raise AnalysisBroken("async_rw_mutex::sender::~sender not found")
+    if len(asg) < 2:
+        rep.bad("C04.R9", "pika::execution::experimental::async_rw_mutex::sender::operator=", sorted(dts)[0], "assignment-defaulted",
+                "the sender's assignment operators have no user-provided body (%d found): assigning over a sender that was never started drops its shared state without giving the "
+                "access its turn - the state is then owned by its predecessor only and is destroyed inside the predecessor's destructor, which goes on to call done() on it "
+                "(write into freed memory); accesses queued behind it are granted out of turn" % len(asg))
+    for loc_, f in sorted(asg.items()):
+        st9 = [(b, i, e) for b, i, e in f.all_events() if (e.get("k") == "call" and e.get("op") == "=" and e.get("recv") is not None and P(e["recv"]) == "this->state") or
+               (e.get("k") == "write" and P(e["lhs"]) == "this->state")]
+        if f.raw.get("defaulted") or not st9:
+            rep.bad("C04.R9", f, f.loc, "assignment-defaulted", "sender::operator= is defaulted (member-wise): assigning over a sender that was never started drops its shared state "
+                    "without giving the access its turn - the state is then owned by its predecessor only and is destroyed inside the predecessor's destructor, which goes on "
+                    "to call done() on it (write into freed memory); the destructor's start_detached has no counterpart here")
+            continue
+
+        def empty_edge(blk, raw):
+            if blk.cond is None:
+                return False
+            a, pos = cond_atoms(blk.cond)
+            return a == "this->state" and raw.get("label") == ("false" if pos else "true")
+        for b, i, e in st9:
+            if precedes_on_all_paths(f, lambda x: x.get("k") == "call" and callee_short(x) == "start_detached", (b, i), edge_pred=empty_edge, eh=False):
+                rep.ok("C04.R9", f, "operator= at %s starts the overwritten access detached (or finds none) before taking over the new state" % f.loc.rsplit("/", 1)[-1])
+            else:
+                rep.bad("C04.R9", f, loc_of(e), "assignment-drops-access", "sender::operator= overwrites 'state' on a path where the old access was neither started detached nor "
+                        "known to be empty: an unstarted access is dropped without taking its turn")
+
     n, failed = witness(rep, "C04.R6", driver("../witness/C04.cpp"))
     for _ in range(n - failed):
         rep.ok("C04.R6", "witness:C04.cpp", "static_assert holds")
